@@ -32,6 +32,16 @@ Qed.
 Lemma node_address_ttl : NodeAddressTTLns = NodeAddressTTLconst /\ 0 < NodeAddressTTLns.
 Proof. split; reflexivity. Qed.
 
+(* 2b: the node re-registers its address (components_session.go refresh goroutine) well inside the address lifetime:
+   twice the refresh interval still fits, so one missed or late refresh does not lose the address *)
+Lemma refresh_inside_address_ttl : 0 < AddrRefreshIntervalNs /\ 2 * AddrRefreshIntervalNs <= NodeAddressTTLns.
+Proof. vm_compute. split; [reflexivity|intro K; discriminate]. Qed.
+
+Lemma deployments_addr_ttl : forall ttl ident hs,
+  c_addr_ttl (cfg_direct ttl ident) = NodeAddressTTLns /\ c_addr_ttl (cfg_hybrid hs ttl) = NodeAddressTTLns
+  /\ NodeAddressTTLns <> 0.
+Proof. intros. repeat split. intro K. discriminate. Qed.
+
 (* 3: "tunnox:tunnel_waiting:"+id and "tunnox:node:"+id+":addr" never coincide *)
 Lemma key_families_diverge : diverge WaitPrefix NodePrefix = true.
 Proof. vm_compute. reflexivity. Qed.
@@ -93,6 +103,9 @@ Definition ex_to_addr (g : ex_gstr) : str := match g with inr a => a | inl _ => 
 Definition ex_keep (_ : cell) (_ : N) : bool := false.
 
 Lemma ex_codec : forall r, ex_dec (ex_enc r) = Some r.
+Proof. reflexivity. Qed.
+
+Lemma ex_addr_codec : forall a, ex_to_addr (ex_of_addr a) = a.
 Proof. reflexivity. Qed.
 
 Definition ex_step := step ex_gstr ex_enc ex_dec ex_dec ex_of_addr ex_to_addr ex_keep.
@@ -160,3 +173,13 @@ Lemma ex_split_lookup_loses_fresh_registration :
   /\ ex_lookup c (ex_final c s0 [ORegister 0 ex_rec; OLookup 1 (w_tunnel ex_rec)]) 1 (w_tunnel ex_rec)
      = ROk (stamp ex_rec 30000000001 60000000001).
 Proof. vm_compute. repeat split; reflexivity. Qed.
+
+(* the server's refresh loop with the real constants *)
+Lemma ex_refresh :
+  let c := cfg_hybrid true 0 in
+  let id := [110;111;100;101;45;48] in let a := [49;48;46;48;46;48;46;49] in
+  let s1 := fst (ex_step c (init ex_gstr) (ORegAddr 0 id a)) in
+  snd (ex_step c (ex_final c s1 (periodic_refresh 0 id a AddrRefreshIntervalNs AddrRefreshIntervalNs 1000
+                                   ++ [OTick 86340000000000 86340000000000])) (OGetAddr 1 id)) = RAddr a
+  /\ snd (ex_step c (ex_final c s1 [OTick 86400000000001 86400000000001]) (OGetAddr 1 id)) = RAddrNotFound.
+Proof. vm_compute. split; reflexivity. Qed.
